@@ -438,7 +438,7 @@ func writeCorrespondence(tasks []*task, o *hx.Opts, res *hx.Result) {
 				continue
 			}
 			out := cr.resp.Out[0]
-			if out.RL > 20000 {
+			if out.RL > 20000 && out.RK != "number" {
 				res.Dist("corr=skipped-large-result")
 				continue
 			}
